@@ -147,6 +147,17 @@ static std::string run(const std::string &line)
       worlds[slot] = std::unique_ptr<World>(new World(file, false, "", seed));
       return "ok";
     }
+  if (cmd == "culling")
+    {
+      // culling 0 : worlds constructed from now on have the slab/fault shortcuts switched off (hook)
+      int on; in >> on;
+#ifdef GWB_VERIF
+      WorldBuilder::verif_disable_culling = (on == 0);
+      return "ok";
+#else
+      return "no-hook";
+#endif
+    }
   if (cmd == "free") { int slot; in >> slot; worlds.erase(slot); return "ok"; }
   if (cmd == "size")
     {
